@@ -431,7 +431,7 @@ func (w *World) Yield(point, name string) {
 
 // alwaysRecorded yield points are logged on every pass (they are gate /
 // ordering events for the oracles).
-var alwaysRecorded = map[string]bool{"runner.released": true, "shutdown.enter": true}
+var alwaysRecorded = map[string]bool{"runner.released": true, "shutdown.enter": true, "shutdown.return": true}
 
 // AliveInfo describes one live simulated command.
 type AliveInfo struct {
@@ -453,6 +453,17 @@ func (w *World) AliveInfo() []AliveInfo {
 		}
 	}
 	sort.Slice(out, func(i, j int) bool { return out[i].Name < out[j].Name })
+	return out
+}
+
+// YieldCounts returns a copy of the per-point pass counters.
+func (w *World) YieldCounts() map[string]int {
+	w.mu.Lock()
+	defer w.mu.Unlock()
+	out := make(map[string]int, len(w.YieldCount))
+	for k, v := range w.YieldCount {
+		out[k] = v
+	}
 	return out
 }
 
